@@ -5361,8 +5361,9 @@ func (a *Agent) TaskDispatch(RequestID uint32, CommandID uint32, Parser *parser.
 						Message["MiscData"] = fmt.Sprintf("%08x", AgentID)
 
 
+						// only an agent that is linked through this very agent can be disconnected by it
 						AgentInstance := teamserver.AgentInstance(AgentID)
-						if AgentInstance != nil {
+						if AgentInstance != nil && AgentInstance.Pivots.Parent == a {
 							teamserver.LinkRemove(a, AgentInstance, true)
 						}
 					} else {
